@@ -98,6 +98,55 @@ func init() {
 		BudgetQuick: 120 * time.Second, BudgetThorough: 600 * time.Second,
 		Run: func(w *W) {
 			n := len(c06refs)
+			// variant 3: the configuration declares no parameter at all (every %param% reference of a service or
+			// decorator is then dangling by construction); the service references vary
+			for set := uint(0); set < 16; set++ {
+				set := set
+				w.Case(fmt.Sprintf("v3/no-parameters/set=%x", set), func(c *C) {
+					full := uint(0)
+					for i, r := range c06refs {
+						if r.kind == "param" {
+							full |= 1 << uint(i)
+						}
+					}
+					full |= (set & 0xf) << 7
+					cfg := c06build(full, 0)
+					cfg.Params = nil
+					var keep []Service
+					for _, s := range cfg.Services {
+						keep = append(keep, s)
+					}
+					cfg.Services = keep
+					files := []File{{"c.yaml", cfg.YAML()}}
+					br := w.Build(files)
+					c.Distinct("all", c.ID)
+					c.Distinct("nontrivial", c.ID)
+					c.Count("with_dangling")
+					if br.Exit == 0 {
+						c.Violation("accepted-with-dangling:no-parameters-declared", "no parameter is declared, services and a decorator reference parameters, and the configuration was accepted", FilesMap(files), nil)
+						return
+					}
+					lines := ErrorLines(br.Out)
+					for i, r := range c06refs {
+						if full&(1<<uint(i)) == 0 || i < 3 {
+							continue
+						}
+						prefix := "output.ValidateParamsExist:"
+						if r.kind == "service" {
+							prefix = "output.ValidateServicesExist:"
+						}
+						found := false
+						for _, l := range LinesWithPrefix(lines, prefix) {
+							if strings.Contains(l, r.referrer) && strings.Contains(l, `"`+r.missing+`"`) {
+								found = true
+							}
+						}
+						if !found {
+							c.Violation("unreported:"+r.id+":no-parameters-declared", fmt.Sprintf("dangling reference %s not reported when no parameter is declared:\n%s", r.id, strings.Join(lines, "\n")), FilesMap(files), nil)
+						}
+					}
+				})
+			}
 			for variant := 0; variant < 3; variant++ {
 				for set := uint(0); set < 1<<uint(n); set++ {
 					set, variant := set, variant
